@@ -46,6 +46,7 @@ import JanetModel.Compile.SeqVar
 import JanetModel.Compile.SeqFnBody
 import JanetModel.Compile.SeqTailIf
 import JanetModel.Compile.SeqErrAll
+import JanetModel.Compile.SeqErrIfCond
 namespace JanetModel.Props.C02
 open JanetModel.Emit
 
@@ -665,9 +666,10 @@ theorem compile_correct_var (p : Program) (f0 : Frame) (rest : List Frame) (V : 
       (var_core p f0 rest V P hP hK G (TF G b) b fuel (tf_correct_b p f0 rest V P hP hK FF G b fuel) x ve hGx hfrag
         { c with cur := q } cq slot0 sc rs pool ps n2 (posOf cur pp) env env1 s s1 v hs hp hl htop hm hcc hev henv)
 
-/-- **The error outcome, every form of the fragment `TF G false`** (error propagation): if `Lang/Sem.eval` of the form is an ERROR
+/-- **The error outcome, every form of the fragment `TF G b`** (error propagation; with `if` when `b = true`): if `Lang/Sem.eval` of the form is an ERROR
     `.err ev epos s'` — raised by a core function somewhere inside: in an operand at any depth, in the application itself, in a
-    statement of a `do` / `upscope`, in the value of a `def` — then the VM, started at the form's code, reaches a configuration in the
+    statement of a `do` / `upscope`, in the value of a `def`, in the condition or the taken branch of an `if` (jump path and
+    folding path) — then the VM, started at the form's code, reaches a configuration in the
     world of `s'` (the effects up to the error happened, nothing after) whose NEXT STEP RAISES THE SAME ERROR VALUE AT THE SAME
     SOURCE POSITION (`ErrOK`).  Hypotheses as for the success case, plus: the mapping cursor agrees with `Lang/Sem`'s current
     position (`hcur`), the map is as long as the code, and — in `ErrOK` — the form's code segment sits in the function's code and
@@ -675,8 +677,8 @@ theorem compile_correct_var (p : Program) (f0 : Frame) (rest : List Frame) (V : 
     sub-forms before the failing one run by the success theorem; the failing one by induction; what is compiled after it is never
     executed and has no semantic run: that it only appends code, map (equal lengths) and pool and never lowers the allocator's
     `max` is compile-only (`tf_shapeM`, `tf_maxM`; `App`).  `Compile/SeqErrAllBase.lean` (`ErrOK.extend`, `.after`, `.block`),
-    `Compile/SeqErrAll.lean` (`toSlots_err`, `call_err`, `doBody_err`, `tf_err_correct`).  `if` (`TF G true`) is the parameter
-    `ErrIfCase` of `tf_err_correct_gen`. -/
+    `Compile/SeqErrAll.lean` (`toSlots_err`, `call_err`, `doBody_err`, `tf_err_correct_gen`), `Compile/SeqErrIf.lean` /
+    `SeqErrIfConst.lean` / `SeqErrIfCond.lean` (`if_jump_err`, `if_const_err`, `if_cond_err`, `tf_err_correct_b`). -/
 theorem compile_correct_error (p : Program) (f0 : Frame) (rest : List Frame) (V : Array Value) (P : List JanetModel.Emit.KConst)
     (hP : P.length < 65536)
     (hK : ∀ i, i < P.length → (p.defs.getD f0.defIdx default).consts.getD i .nil = litOf V (P.getD i .nil))
@@ -685,12 +687,27 @@ theorem compile_correct_error (p : Program) (f0 : Frame) (rest : List Frame) (V 
     (ps : List (List JanetModel.Emit.KConst)) (n : Nat) (cur : Pos) (env : Env) (s s' : SS) (ev : Value) (epos : Pos)
     (ht : opts.tail = false) (hh : opts.hint = none)
     (hs : c.scopes = sc :: rs) (hp : c.pools = pool :: ps) (hl : c.lim ≤ 240) (htop : sc.top = false)
-    (hm : c.map.length = c.buf.length) (hcur : c.cur = cur) (hfrag : TF G false e)
+    (hm : c.map.length = c.buf.length) (hcur : c.cur = cur) (b : Bool) (hfrag : TF G b e)
     (hcomp : cValue fuel opts e c = some (slot, c')) (hsem : eval n cur env e s = .err ev epos s')
     (henv : EnvS G c.scopes env s.boxes.size sc.ra) :
     ErrOK p f0 rest V P c c' rs ps env s s' ev epos :=
-  tf_err_correct p f0 rest V P hP hK FF G false (tf_correct_b p f0 rest V P hP hK FF G false) fuel e opts c c' slot sc rs pool ps n cur env
+  tf_err_correct_b p f0 rest V P hP hK FF G b b (tf_correct_b p f0 rest V P hP hK FF G b) fuel e opts c c' slot sc rs pool ps n cur env
     s s' ev epos ht hh hs hp hl htop hm hcur hfrag hcomp hsem henv
+
+/-- non-vacuity of the error theorems: `(error :boom)` at line 3 is in the fragment (`G = {error}`) and `Lang/Sem` evaluates it to the
+    error `:boom` attributed to line 3; nested in an operand, `(tuple 1 (error :boom))`, likewise -/
+example : (match eval 10 {} [] (.form [.sym "error", .lit (.kw "boom")] { line := 3, col := 1 }) {} with
+           | .err (.kw x) q _ => x == "boom" && q.line == 3 | _ => false) = true := by decide
+example : (match eval 10 {} [] (.form [.sym "tuple", .lit (.kw "a"), .form [.sym "error", .lit (.kw "boom")] { line := 4, col := 2 }] { line := 3, col := 1 }) {} with
+           | .err (.kw x) q _ => x == "boom" && q.line == 4 | _ => false) = true := by decide
+example : TF (fun f => f = "error" ∨ f = "tuple") false
+    (.form [.sym "tuple", .lit (.kw "a"), .form [.sym "error", .lit (.kw "boom")] { line := 4, col := 2 }] { line := 3, col := 1 }) := by
+  refine .call "tuple" _ _ (by decide) (by decide) (Or.inr rfl) (fun a ha => ?_)
+  simp only [List.mem_cons, List.not_mem_nil, or_false] at ha
+  rcases ha with rfl | rfl
+  · exact .lit _ trivial
+  · exact .call "error" _ _ (by decide) (by decide) (Or.inl rfl) (fun a ha => by
+      simp only [List.mem_cons, List.not_mem_nil, or_false] at ha; subst ha; exact .lit _ trivial)
 
 /-- **Compile correctness, tail position (calls)**: a call `(f e₁ … eₙ)` of a global core function (`G f`, not `apply`, not a
     special form), operands in the fragment `TF G b` (either fragment; `hm` needed when `if` is among them), compiled with the TAIL flag in a scope that is not the top level
@@ -818,7 +835,7 @@ example : ({ tail := true } : Fopts).tail = true ∧ ({ tail := true } : Fopts).
     `compile_correct_nary_calls` (calls of global core functions with any number of operands: PUSH / PUSH_2 / PUSH_3 grouping,
     operands held together), `compile_correct_local_calls` (calls through a local holding a core function),
     `compile_correct_if` (`if`, jump path), `compile_correct_tail_calls` (a call in tail position: TAILCALL, the next VM step is
-    the return of the value), `compile_correct_call_error` / `compile_correct_error` (a raising core function, anywhere inside a form of the if-free
+    the return of the value), `compile_correct_call_error` / `compile_correct_error` (a raising core function, anywhere inside a form of the
     fragment: same error value at the same position, same effects), `compile_correct_tail` (every form in tail position),
     `compile_correct_fn_body` (a function body), `compile_correct_var` (`var` declarations).
     Missing, exactly: (1) calls whose callee is a closure or a computed head (needs closures in the VM relation); (2) `if` whose
@@ -831,7 +848,7 @@ example : ({ tail := true } : Fopts).tail = true ∧ ({ tail := true } : Fopts).
     n-ary call needs the side condition that no operand is a variable a later operand sets: janet reads operand registers when
     the call is made), destructuring `def`, `while` / `break` (`.brk` is a third outcome of every form; the placeholder rewrite
     needs "no break tag in the code of a fragment form"), `fn` / closures / upvalues (`janetc_popscope`'s `keep` reservations are
-    modelled and compared word for word, not proved); (3) error propagation through `if` (`ErrIfCase`: the condition or the taken branch raises), the
+    modelled and compared word for word, not proved); (3) the
     top-level scope (`sc.top`: calls are never tail calls there, `def` makes globals); (4) far registers (`lim` > 0xF0: the
     `emit_*_correct` theorems cover the emit layer, not yet connected).  Every construct outside these theorems stays
     translation-validated: model = real compiler word for word, real bytecode run by the Lean VM = real VM = `Lang/Sem`. -/
